@@ -95,6 +95,7 @@ Theorem marks_noninterference_partial :
     (forall c, Cx c -> wf_ctx c) ->
     (forall c, Cx c -> funcs_wf c) ->
     (forall c vars, Cx c -> (forall k v, In (k, v) vars -> wf v) -> Cx (child_ctx c vars)) ->
+    (forall c, Cx c -> Cx (mkFrame None None :: c)) ->
     (forall c k, wf c -> wf k -> wf (fst (idx c k))) ->
   forall fuel c1 c2 a1 a2 e v1 ds1 v2 ds2,
     in_fragment m idx Cx e ->
@@ -105,8 +106,8 @@ Theorem marks_noninterference_partial :
     has_unsupported ds1 = false -> has_unsupported ds2 = false ->
     erase m v1 = erase m v2.
 Proof.
-  intros m idx Cx Hwf Hfw Hch Hidx fuel c1 c2 a1 a2 e v1 ds1 v2 ds2 Fe HL HA HF C1 C2 W1 W2 E1 E2 A1 A2 B1 B2.
-  eapply (ni_all m idx Cx Hwf Hch); try eassumption; try (split; assumption).
+  intros m idx Cx Hwf Hfw Hch Hfr Hidx fuel c1 c2 a1 a2 e v1 ds1 v2 ds2 Fe HL HA HF C1 C2 W1 W2 E1 E2 A1 A2 B1 B2.
+  eapply (ni_all m idx Cx Hwf Hch Hfr); try eassumption; try (split; assumption).
   intros. eapply (eval_wf m idx Cx); eassumption.
 Qed.
 
@@ -131,6 +132,7 @@ Corollary marks_noninterference_repaired :
   forall (m : Z) (Cx : ctx -> Prop),
     (forall c, Cx c -> wf_ctx c) -> (forall c, Cx c -> funcs_wf c) ->
     (forall c vars, Cx c -> (forall k v, In (k, v) vars -> wf v) -> Cx (child_ctx c vars)) ->
+    (forall c, Cx c -> Cx (mkFrame None None :: c)) ->
   forall fuel c1 c2 a1 a2 e v1 ds1 v2 ds2,
     in_fragment m index_repaired Cx e ->
     low_eq m c1 c2 -> leq_opt m a1 a2 -> funcs_ni m c1 ->
@@ -139,13 +141,14 @@ Corollary marks_noninterference_repaired :
     has_errors ds1 = false -> has_errors ds2 = false ->
     has_unsupported ds1 = false -> has_unsupported ds2 = false ->
     erase m v1 = erase m v2.
-Proof. intros m Cx H1 H2 H3. apply marks_noninterference_partial; auto using index_repaired_wf. Qed.
+Proof. intros m Cx H1 H2 H3 H4. apply marks_noninterference_partial; auto using index_repaired_wf. Qed.
 
 (* the implementation as it is (eval = eval_with index) *)
 Corollary marks_noninterference_eval :
   forall (m : Z) (Cx : ctx -> Prop),
     (forall c, Cx c -> wf_ctx c) -> (forall c, Cx c -> funcs_wf c) ->
     (forall c vars, Cx c -> (forall k v, In (k, v) vars -> wf v) -> Cx (child_ctx c vars)) ->
+    (forall c, Cx c -> Cx (mkFrame None None :: c)) ->
   forall fuel c1 c2 a1 a2 e v1 ds1 v2 ds2,
     in_fragment m index Cx e ->
     low_eq m c1 c2 -> leq_opt m a1 a2 -> funcs_ni m c1 ->
@@ -154,13 +157,14 @@ Corollary marks_noninterference_eval :
     has_errors ds1 = false -> has_errors ds2 = false ->
     has_unsupported ds1 = false -> has_unsupported ds2 = false ->
     erase m v1 = erase m v2.
-Proof. intros m Cx H1 H2 H3. unfold eval. apply marks_noninterference_partial; auto using index_wf'. Qed.
+Proof. intros m Cx H1 H2 H3 H4. unfold eval. apply marks_noninterference_partial; auto using index_wf'. Qed.
 
 (* hcl.Expression.Value *)
 Corollary marks_noninterference_value :
   forall (m : Z) (Cx : ctx -> Prop),
     (forall c, Cx c -> wf_ctx c) -> (forall c, Cx c -> funcs_wf c) ->
     (forall c vars, Cx c -> (forall k v, In (k, v) vars -> wf v) -> Cx (child_ctx c vars)) ->
+    (forall c, Cx c -> Cx (mkFrame None None :: c)) ->
   forall c1 c2 e v1 ds1 v2 ds2,
     in_fragment m index Cx e ->
     low_eq m c1 c2 -> funcs_ni m c1 -> Cx c1 -> Cx c2 ->
@@ -169,8 +173,8 @@ Corollary marks_noninterference_value :
     has_unsupported ds1 = false -> has_unsupported ds2 = false ->
     erase m v1 = erase m v2.
 Proof.
-  intros m Cx H1 H2 H3 c1 c2 e v1 ds1 v2 ds2 Fe HL HF C1 C2 E1 E2. unfold value in E1, E2.
-  eapply (marks_noninterference_eval m Cx H1 H2 H3); try eassumption; exact I.
+  intros m Cx H1 H2 H3 H4 c1 c2 e v1 ds1 v2 ds2 Fe HL HF C1 C2 E1 E2. unfold value in E1, E2.
+  eapply (marks_noninterference_eval m Cx H1 H2 H3 H4); try eassumption; exact I.
 Qed.
 
 (* ---- the canonical class of contexts: all values well-formed, all functions well-behaved ------- *)
@@ -189,6 +193,13 @@ Proof.
   - intros fr fs name f [<-|I] F G; [discriminate F|]. eapply H2; eassumption.
 Qed.
 
+Lemma ctx_ok_frame c : ctx_ok c -> ctx_ok (mkFrame None None :: c).
+Proof.
+  intros [H1 H2]. split.
+  - intros fr vs k v [<-|I] F Iv; [discriminate F|]. eapply H1; eassumption.
+  - intros fr fs name f [<-|I] F G; [discriminate F|]. eapply H2; eassumption.
+Qed.
+
 Corollary marks_noninterference_value_ok :
   forall (m : Z) c1 c2 e v1 ds1 v2 ds2,
     in_fragment m index ctx_ok e ->
@@ -197,7 +208,7 @@ Corollary marks_noninterference_value_ok :
     has_errors ds1 = false -> has_errors ds2 = false ->
     has_unsupported ds1 = false -> has_unsupported ds2 = false ->
     erase m v1 = erase m v2.
-Proof. intro m. apply (marks_noninterference_value m ctx_ok ctx_ok_wf ctx_ok_funcs ctx_ok_child). Qed.
+Proof. intro m. apply (marks_noninterference_value m ctx_ok ctx_ok_wf ctx_ok_funcs ctx_ok_child ctx_ok_frame). Qed.
 
 Corollary marks_noninterference_eval_ok :
   forall (m : Z) fuel c1 c2 a1 a2 e v1 ds1 v2 ds2,
@@ -208,7 +219,7 @@ Corollary marks_noninterference_eval_ok :
     has_errors ds1 = false -> has_errors ds2 = false ->
     has_unsupported ds1 = false -> has_unsupported ds2 = false ->
     erase m v1 = erase m v2.
-Proof. intro m. apply (marks_noninterference_eval m ctx_ok ctx_ok_wf ctx_ok_funcs ctx_ok_child). Qed.
+Proof. intro m. apply (marks_noninterference_eval m ctx_ok ctx_ok_wf ctx_ok_funcs ctx_ok_child ctx_ok_frame). Qed.
 
 Corollary marks_noninterference_repaired_ok :
   forall (m : Z) fuel c1 c2 a1 a2 e v1 ds1 v2 ds2,
@@ -219,7 +230,7 @@ Corollary marks_noninterference_repaired_ok :
     has_errors ds1 = false -> has_errors ds2 = false ->
     has_unsupported ds1 = false -> has_unsupported ds2 = false ->
     erase m v1 = erase m v2.
-Proof. intro m. apply (marks_noninterference_repaired m ctx_ok ctx_ok_wf ctx_ok_funcs ctx_ok_child). Qed.
+Proof. intro m. apply (marks_noninterference_repaired m ctx_ok ctx_ok_wf ctx_ok_funcs ctx_ok_child ctx_ok_frame). Qed.
 
 (* the harness table *)
 Definition harness_funcs : list (list Z * fn) :=
